@@ -1,4 +1,5 @@
 import SJ.Proofs.Pointer
+import SJ.Proofs.ValueIndex
 /-!
 # C18 — Value lookups follow RFC 6901 and agree with each other
 
@@ -131,5 +132,118 @@ example : pointer doc [0x2f, 0x61, 0x7e, 0x31, 0x62, 0x2f, 0x2b, 0x31] = none :=
 example : pointer doc [0x2f, 0x61, 0x7e, 0x31, 0x62, 0x2f, 0x2d] = none := rfl   -- /a~1b/-
 example : pointer doc [0x61, 0x7e, 0x31, 0x62] = none := rfl   -- a~1b
 example : unescapeTok [0x7e, 0x30, 0x31] = [0x7e, 0x31] := rfl   -- ~01 ↦ ~1
+
+/-! ## `get` / `Index` / `IndexMut` / `take` -/
+
+section index
+open SJ.Model.ValueIndex SJ.Proofs.ValueIndex
+
+/-- **C18 (get, Index).** For every probe (a `usize`, a `str`, a `String`, a reference to any of
+    them) and every value: `get` is direct container access (first-match member lookup in an object,
+    `nth` in an array, nothing otherwise), `&value[probe]` is that or `Null`, and a write through
+    `get_mut` replaces exactly the member / element addressed. -/
+theorem c18_get_index (p : Probe) (v : JV) :
+    get p v = Spec.Index.select (sel p) v ∧
+    index p v = Spec.Index.orNull (Spec.Index.select (sel p) v) ∧
+    ∀ x, getMutSet p x v = (Spec.Index.select (sel p) v).map fun _ => Spec.Index.write x (sel p) v := by
+  refine ⟨indexInto_eq p v, ?_, fun x => indexIntoMutSet_eq p x v⟩
+  unfold index
+  rw [indexInto_eq]
+  cases Spec.Index.select (sel p) v <;> rfl
+
+/-- the outcome the reference prescribes for `&mut value[probe]` -/
+def refIndexMut (po : Bool) (s : Spec.Index.Sel) (v : JV) : Res (JV × Spec.Index.Sel) :=
+  match Spec.Index.indexMut po s v with
+  | some doc => .ok (doc, s)
+  | none => .panic
+
+def resSel : Res (JV × Loc) → Res (JV × Spec.Index.Sel)
+  | .ok (d, l) => .ok (d, locSel l)
+  | .panic => .panic
+
+theorem strIndexOrInsert_eq (po : Bool) (k : Bytes) (v : JV) :
+    resSel (strIndexOrInsert po k v) = refIndexMut po (.key k) v := by
+  have hn : Gen.nullBecomesObject = true := rfl
+  have ho : valueOfCode Gen.orInsertCode = .null := rfl
+  cases v <;>
+    simp [strIndexOrInsert, refIndexMut, Spec.Index.indexMut, Spec.Index.indexMutKey, resSel, locSel, hn, ho,
+      entryOrInsert_eq]
+
+theorem usizeIndexOrInsert_eq (i : Nat) (v : JV) :
+    resSel (usizeIndexOrInsert i v) = refIndexMut false (.pos i) v := by
+  cases v <;> simp [usizeIndexOrInsert, refIndexMut, Spec.Index.indexMut, Spec.Index.indexMutIdx, resSel]
+  rename_i l
+  cases l[i]? <;> simp [locSel]
+
+theorem refIndexMut_pos (po : Bool) (i : Nat) (v : JV) : refIndexMut po (.pos i) v = refIndexMut false (.pos i) v := rfl
+
+/-- **C18 (IndexMut).** `&mut value[probe]` is the reference "insert-if-missing, then address":
+    * a string probe turns `Null` into an object, adds a `null` member when the key is missing (in
+      key order by default, at the end under `preserve_order`), never touches another member, and
+      addresses member `key` of the result; it panics exactly on a bool, number, string or array;
+    * a position probe creates nothing and addresses element `i`; it panics exactly when the value is
+      not an array or `i` is past the end. -/
+theorem c18_index_mut (po : Bool) (p : Probe) (v : JV) :
+    resSel (indexMut po p v) = refIndexMut po (sel p) v := by
+  unfold indexMut
+  induction p with
+  | usize i => exact usizeIndexOrInsert_eq i v
+  | str k => exact strIndexOrInsert_eq po k v
+  | string k => exact strIndexOrInsert_eq po k v
+  | ref p ih => simpa [indexOrInsert, sel] using ih
+
+/-- … where the reference itself is characterised by lookups: the panics are exactly the documented
+    ones, and after `&mut value[key]` member `key` holds what it held before (or `null`) while every
+    other lookup is unchanged. -/
+theorem c18_index_mut_reference (po : Bool) (v : JV) :
+    (∀ k, Spec.Index.indexMut po (.key k) v = none ↔ (v ≠ .null ∧ ∀ m, v ≠ .obj m)) ∧
+    (∀ i, Spec.Index.indexMut po (.pos i) v = none ↔ ∀ l, v = .arr l → l.length ≤ i) ∧
+    (∀ i doc, Spec.Index.indexMut po (.pos i) v = some doc → doc = v) ∧
+    (∀ k doc, Spec.Index.indexMut po (.key k) v = some doc →
+      ∃ m', doc = .obj m' ∧ ∀ k', Spec.Index.lookup k' m' =
+        if k' = k then some (Spec.Index.orNull (Spec.Index.member k v)) else Spec.Index.member k' v) := by
+  refine ⟨fun k => ?_, fun i => ?_, fun i doc h => ?_, fun k doc h => ?_⟩
+  · cases v <;> simp [Spec.Index.indexMut, Spec.Index.indexMutKey]
+  · cases v <;> simp [Spec.Index.indexMut, Spec.Index.indexMutIdx]
+  · cases v <;> simp [Spec.Index.indexMut, Spec.Index.indexMutIdx] at h
+    obtain ⟨_, _, rfl⟩ := h; rfl
+  · cases v <;> simp [Spec.Index.indexMut, Spec.Index.indexMutKey] at h
+    · subst h
+      exact ⟨_, rfl, fun k' => by
+        rw [lookup_insertIfMissing]; simp [Spec.Index.member, Spec.Index.lookup]⟩
+    · subst h
+      exact ⟨_, rfl, fun k' => by rw [lookup_insertIfMissing]; simp [Spec.Index.member]⟩
+
+/-- **C18 (take).** `take` returns the old value and leaves `Null`; applied through a pointer it
+    returns the node RFC 6901 addresses and leaves the document with exactly that node nulled. -/
+theorem c18_take (v : JV) (p : Bytes) :
+    take v = (v, .null) ∧
+    takeAt v p = match Spec.Pointer.eval v p with
+      | none => none
+      | some node => (Spec.Pointer.set v p .null).map fun doc' => (node, doc') := by
+  have ht : ∀ x, take x = (x, .null) := fun _ => rfl
+  refine ⟨ht v, ?_⟩
+  unfold takeAt
+  rw [c18_pointer, ]
+  cases Spec.Pointer.eval v p with
+  | none => rfl
+  | some node => simp only [ht, c18_pointer_mut]
+
+/-- non-vacuity: probes on `{"a/b": [null, true], "m~n": 8}` -/
+example : index (.str [0x6d, 0x7e, 0x6e]) doc = .num (.pos 8) := rfl
+example : index (.ref (.string [0x7a])) doc = .null := rfl
+example : index (.usize 0) doc = .null := rfl
+example : get (.usize 1) (.arr [.null, .bool true]) = some (.bool true) := rfl
+example : indexMut false (.str [0x62]) (.obj [([0x61], .null), ([0x63], .null)])
+    = .ok (.obj [([0x61], .null), ([0x62], .null), ([0x63], .null)], .key [0x62]) := rfl
+example : indexMut true (.str [0x62]) (.obj [([0x61], .null), ([0x63], .null)])
+    = .ok (.obj [([0x61], .null), ([0x63], .null), ([0x62], .null)], .key [0x62]) := rfl
+example : indexMut false (.str [0x62]) .null = .ok (.obj [([0x62], .null)], .key [0x62]) := rfl
+example : indexMut false (.str [0x62]) (.bool true) = .panic := rfl
+example : indexMut false (.usize 2) (.arr [.null, .null]) = .panic := rfl
+example : takeAt doc [0x2f, 0x6d, 0x7e, 0x30, 0x6e]
+    = some (.num (.pos 8), .obj [([0x61, 0x2f, 0x62], .arr [.null, .bool true]), ([0x6d, 0x7e, 0x6e], .null)]) := rfl
+
+end index
 
 end SJ.Props.C18
